@@ -190,14 +190,15 @@ func runC06(c *Ctx) {
 	m.errorCoverage()
 	m.noPanics()
 	// shared with C15: Wait() can only return if retries are bounded; duplicates are delivered only if the completed flag survives
-	c.RulePrefix = "C15/"
+	savedPrefix := c.RulePrefix
+	c.RulePrefix = savedPrefix + "C15/"
 	runC15(c)
-	c.RulePrefix = ""
+	c.RulePrefix = savedPrefix
 	// an adapter that reports success (nil) without the transfer having happened makes the queue account the
 	// object as completed: the upload-verification rule of C03 (success only through verifyUpload) is shared
-	c.RulePrefix = "C03/"
+	c.RulePrefix = savedPrefix + "C03/"
 	c03Verify(c)
-	c.RulePrefix = ""
+	c.RulePrefix = savedPrefix
 	c06AuthGate(c)
 	c06AbortableGroup(c)
 	transferRelRule(c, "R13")
